@@ -106,7 +106,7 @@ func initOrder(l *loaded, root *ssa.Package, want map[string]bool) []*ssa.Functi
 }
 
 func defaultInits(pkgDir string, extra []string) map[string]bool {
-	want := map[string]bool{importPath(pkgDir): true, "unicode/utf8": true, "strconv": true, "io": true}
+	want := map[string]bool{importPath(pkgDir): true, "unicode/utf8": true, "strconv": true, "io": true, "strings": true}
 	for _, e := range extra {
 		want[importPath(e)] = true
 	}
